@@ -11,7 +11,7 @@ RULE = (
     "(a) random circuits (with blackboxes) corrupted directly on the underlying graph by 0..3 of: type attribute removed / unsupported, fan-in added to input/0/1/x/bb_output, second "
     "driver on buf/not/bb_input, second or non-buf load on bb_output, dotted name without instance, blackbox pin deleted or retyped, gate left undriven, node left unloaded, "
     "multi-input gate reduced to one input; all 16 flag combinations; lint must raise ValueError iff a re-statement of the documented rules finds an enabled rule violated, and "
-    "nothing else; (b) outputs of the parsers, logic generators, fully connected composition calls and function-preserving transforms on lint-clean arguments must pass lint. "
+    "nothing else; (b) outputs of the parsers, logic generators, fully connected composition calls and function-preserving transforms on lint-clean arguments must pass lint, also after a write->read round trip (bench, Verilog with both parsers) and after pipelines of 2..3 transforms (every stage linted). "
     "non-trivial = every case; distinct = canonical graph + flags / producer + argument"
 )
 BUDGET = {
